@@ -512,7 +512,9 @@ def strat_ifg_crop(tier):
     return st.fixed_dictionaries({'shape': st.tuples(ax, ax).map(list), 'dx': st.sampled_from([1.0, 0.5, 0.2, 2.5]),
                                   'touch': st.sampled_from(['none', 'x', 'r', 'x-and-r']),
                                   'cuts': st.tuples(cut, cut, cut, cut).map(list),      # rows removed top / bottom, columns removed left / right
-                                  'latcal_first': st.booleans(), 'twice': st.booleans()})
+                                  'latcal_first': st.booleans(), 'twice': st.booleans(),
+                                  # dead detector lines: whole invalid rows / columns strictly inside the valid rectangle (offsets from its first line)
+                                  'dead': st.one_of(st.just([[], []]), st.just([[], []]), st.tuples(st.lists(st.integers(1, 12), max_size=2), st.lists(st.integers(1, 12), max_size=2)).map(list))})
 
 
 def check_ifg_crop(case, ctx):
@@ -530,6 +532,19 @@ def check_ifg_crop(case, ctx):
     z = _marker((ny, nx)).astype(float)
     keep = np.zeros((ny, nx), dtype=bool)
     keep[t0:ny - b0, l0:nx - r0] = True
+    dead_r, dead_c = case.get('dead', [[], []])
+    hgt, wid = ny - b0 - t0, nx - r0 - l0
+    ndead = 0
+    for k in dead_r:
+        if 0 < k < hgt - 1:
+            keep[t0 + k, :] = False
+            ndead += 1
+    for k in dead_c:
+        if 0 < k < wid - 1:
+            keep[:, l0 + k] = False
+            ndead += 1
+    if ndead:
+        ctx.label('interior-dead-lines')
     with warnings.catch_warnings():
         warnings.simplefilter('ignore')
         i = Interferogram(z.copy(), dx=dx) if not case['latcal_first'] else Interferogram(z.copy())
@@ -551,7 +566,7 @@ def check_ifg_crop(case, ctx):
         d = np.asarray(i.data)
         oy, ox = ny - t0 - b0, nx - l0 - r0
         U.check_shape(d, (oy, ox), 'Interferogram.crop:data')
-        U.check_equal(d, z[t0:ny - b0, l0:nx - r0], 'Interferogram.crop:data', 'crop() did not keep exactly the bounding rectangle of the valid samples')
+        U.check_equal(np.where(np.isfinite(d), d, -1.0), np.where(keep, z, -1.0)[t0:ny - b0, l0:nx - r0], 'Interferogram.crop:data', 'crop() did not keep exactly the bounding rectangle of the valid samples')
         x, y = np.asarray(ctx.call(getattr, i, 'x')), np.asarray(ctx.call(getattr, i, 'y'))
         U.check_shape(x, d.shape, 'Interferogram.recenter:x-shape', 'x after crop+recenter (coordinates touched before: %s)' % t)
         U.check_shape(y, d.shape, 'Interferogram.recenter:y-shape', 'y after crop+recenter (coordinates touched before: %s)' % t)
